@@ -14,6 +14,7 @@ def main():
     ap.add_argument("--only", default=None)
     ap.add_argument("--replay", default=None)
     ap.add_argument("--list", action="store_true")
+    ap.add_argument("--budget", type=float, default=None, help="development only: cap every obligation's budget (implies partial run)")
     ap.add_argument("-v", action="store_true")
     a = ap.parse_args()
     from fvsym import engine
@@ -34,6 +35,9 @@ def main():
         seed = int(os.environ.get("VERIF_SEED") or 0)
     except ValueError:
         seed = 0
+    if a.budget:
+        engine.BUDGET_CAP = a.budget
+        a.only = a.only or "*"
     return engine.run_property(a.prop.upper(), a.tier, a.jobs, a.only, seed, a.v)
 
 
